@@ -294,7 +294,7 @@ def mk_app_call(file_, iface, cls):
         params = {"self": self_t, "environ": Dict(HTTP_IF_NONE_MATCH=Maybe_(Str), HTTP_IF_MODIFIED_SINCE=Maybe_(Str), PATH_INFO=Maybe_(Str)),
                   "start_response": Opaque("StartResponse")}
     else:
-        params = {"self": self_t, "scope": Dict(path=Str, headers=List(Tup(Bytes, Bytes))), "receive": Opaque("Receive"),
+        params = {"self": self_t, "scope": Dict(path=Str, root_path=Maybe_(Str), headers=List(Tup(Bytes, Bytes))), "receive": Opaque("Receive"),
                   "send": Opaque("Send")}
     ensures = {
         # C07: whatever the request says, every path handed to os.stat - and therefore every file that can be served -
@@ -353,7 +353,9 @@ def mk_app_call(file_, iface, cls):
         ufuncs=dict(UF, quote_path=([Str], Str), is_abs_norm=([Str], Bool), S_ISREG=([Int], Bool), S_ISDIR=([Int], Bool), inm_upto=([Int], Str), ims_upto=([Int], Str),
                     date_parses=([Str], Bool), parsed_date=([Str], Opaque("Datetime")), dt_timestamp=([Opaque("Datetime")], Opaque("Float")),
                     floor_int=([Opaque("Float")], Int), etag_of=([Opaque("Float"), Int], Str)),
-        stubs={"request_path": lambda ev, a, k, n: ev.st.ghost["rp"], "stat.S_ISDIR": _s_isdir, "URL": _url_stub,
+        # (request_path is the WSGI module's reading of PATH_INFO, its own contract in C04; the ASGI module has no such function -
+        # a stub by that name there would hide whatever a new function of that name does)
+        stubs={**({"request_path": lambda ev, a, k, n: ev.st.ghost["rp"]} if iface == "wsgi" else {}), "stat.S_ISDIR": _s_isdir, "URL": _url_stub,
                "RedirectResponse": _redirect_stub,
                "quote": lambda ev, a, k, n: VStr(ufunc("quote_path", S, S)(a[0].t))},      # (A-quote-1; the target's text is C13)
         stub_methods={(resp + ":Response", "__call__"): _served, (resp + ":FileResponse", "__call__"): _served,
@@ -369,7 +371,8 @@ def mk_app_call(file_, iface, cls):
         # replay: the model's request path on the real temp tree of the native layer (the model's directory name and
         # stat outcomes are abstract; a refutation whose path behaves correctly there is reported as undecided)
         model_to_inputs=(lambda m, _i=iface, _c=cls: {"kind": _c, "iface": _i,
-                                                      "path": "/" + str(m.get("rp", m.get("scope['path']", ""))).lstrip("/")}),
+                                                      "path": "/" + str(m.get("rp", m.get("scope['path']", ""))).lstrip("/"),
+                                                      "mount": (m.get("scope['root_path']") if m.get("scope.has['root_path']") else None)}),
         native=("c07", "replay"),
         assumptions=["A-path-1", "A-path-2", "A-stat"],
         notes="ensure_absolute_path, check_path_is_file and file_response enter through their own contracts; calling the "
